@@ -424,8 +424,21 @@ def oracle_c02(ctx):
             ctx.sample({"oracle": "c02", "site": r["site"], "class": r["klass"], "input": r["input"],
                         "torch_grad": r["expected"], "impl_grad": r["observed"]})
     for site in sorted(failing):
+        # at most 3 per site, smallest inputs first: the smallest silently wrong gradient, the smallest raising
+        # backward, then the next smallest of a class not shown yet
         rs = sorted(failing[site], key=lambda r: r["size"])
-        for r in rs[:3]:
+        chosen = []
+        for want_exc in (False, True):
+            for r in rs:
+                if isinstance(r["observed"], str) == want_exc:
+                    chosen.append(r)
+                    break
+        for distinct in (True, False):
+            for r in rs:
+                if len(chosen) < 3 and not any(r is c for c in chosen) and \
+                        (not distinct or r["klass"] not in {c["klass"] for c in chosen}):
+                    chosen.append(r)
+        for r in chosen:
             ctx.witness(site, r["klass"], r["input"], r["expected"], r["observed"], note=r.get("note", ""))
     out = {"cases": len(cases), "by_site": by_site, "witnesses": n_wit, "rejected": n_rej,
            "reference_disagreements": n_refdis, "forward_vs_torch_mismatches": n_fwd,
@@ -695,7 +708,7 @@ def _c09_cases(rng, quick):
 
     for row in FIXED_ROWS:
         add_softmax([list(row)])
-        for lab in range(len(row)):
+        for lab in sorted(range(len(row)), key=lambda j: (row[j], j)):     # the smallest logit (underflowing class) first
             add_ce([list(row)], [lab])
     batch = [[1000.0, 0.0, -1000.0], [-1e4, -1e4, -1e4], [0.0, 0.0, 0.0], [745.5, 0.0, -745.5]]
     add_softmax(batch)
